@@ -263,6 +263,13 @@ func mediumFamily(thorough bool, add func(File, error)) {
 	add(spzMedium(2, 1, 2000))
 	add(ptsMedium(7, 600), nil)
 	add(splatMedium(600), nil)
+	// binary point clouds of 2.7 MB: cuts around every power-of-two offset up to 2 MiB
+	for _, fi := range []int{1, 2} {
+		lf, lerr := plyMedium("cloud", fi, 100003, 0)
+		lf.Large = true
+		lf.ID += "/large"
+		add(lf, lerr)
+	}
 	// one record more than 2^12 (plus 3): batch / chunk sizes are powers of two
 	add(stlMedium(4096+3), nil)
 	add(splatMedium(4096+3), nil)
@@ -278,7 +285,67 @@ func mediumFamily(thorough bool, add func(File, error)) {
 
 // mediumCuts: (a) ∪ (b) ∪ (c) ∪ (d), ascending. reported = positions strictly inside a token of the
 // last line of a text body.
+// largeCuts: for files of megabytes — the record boundaries next to every offset that is a multiple of
+// 2^k bytes (k = 12..21; the first three multiples and the last one) counted from the start of the
+// file and from the start of the body, each with its neighbouring bytes; the last 32 bytes; 64
+// positions spread over the file.  A reader that takes the body in blocks has its block boundaries
+// at such offsets rounded to whole records.
+func (f *File) largeCuts() (cuts, reported []int) {
+	n := len(f.Data)
+	set := map[int]struct{}{}
+	put := func(i int) {
+		if i >= 0 && i < n {
+			set[i] = struct{}{}
+		}
+	}
+	near := func(pos int) {
+		j := sort.SearchInts(f.Marks, pos)
+		for d := -2; d <= 1; d++ {
+			if j+d >= 0 && j+d < len(f.Marks) {
+				m := f.Marks[j+d]
+				put(m - 1)
+				put(m)
+				put(m + 1)
+			}
+		}
+		put(pos - 1)
+		put(pos)
+		put(pos + 1)
+	}
+	for k := 12; k <= 21; k++ {
+		step := 1 << k
+		for _, origin := range []int{0, f.BodyStartOfRecords()} {
+			for mult := 1; mult <= 3; mult++ {
+				near(origin + mult*step)
+			}
+			near(origin + (n-origin)/step*step)
+		}
+	}
+	for i := n - 32; i < n; i++ {
+		put(i)
+	}
+	for i := 0; i < 64; i++ {
+		put(i * (n / 64))
+	}
+	for i := range set {
+		cuts = append(cuts, i)
+	}
+	sort.Ints(cuts)
+	return cuts, nil
+}
+
+// BodyStartOfRecords: the offset of the first record (first mark), or the length when there is none.
+func (f *File) BodyStartOfRecords() int {
+	if len(f.Marks) > 0 {
+		return f.Marks[0]
+	}
+	return len(f.Data)
+}
+
 func (f *File) mediumCuts() (cuts, reported []int) {
+	if f.Large {
+		return f.largeCuts()
+	}
 	n := len(f.Data)
 	set := map[int]struct{}{}
 	put := func(i int) {
